@@ -53,10 +53,11 @@ def run(prog, rep, tier='quick'):
         init = cls.find_method('__init__')
         has_method = 'method' in [a.arg for a in init.node.args.args]
         variants = [None] if not has_method else ['adapt', 'unity', 'eigen']
-        for cplx, parity, meth in [(c, p, v) for c in (False, True) for p in ('even', 'odd') for v in variants]:
+        for cplx, parity, meth, npar in [(c, p, v, q) for c in (False, True) for p in ('even', 'odd') for v in variants
+                                         for q in ('even', 'odd')]:
             if True:
-                label = '%s, NFFT %s%s' % ('complex' if cplx else 'real', parity, (', method=%s' % meth) if meth else '')
-                kw = ctor_args(cls, cplx, parity, scale=False, overrides={'method': Const(meth)} if meth else None)
+                label = '%s, N %s, NFFT %s%s' % ('complex' if cplx else 'real', npar, parity, (', method=%s' % meth) if meth else '')
+                kw = ctor_args(cls, cplx, parity, scale=False, overrides={'method': Const(meth)} if meth else None, nparity=npar)
                 ref, obj, itp, ok = C.run_class(prog, cls.mod, cls.name, [], kw)
                 nctx += 1
                 where = loc(cls.mod, cls.node)
@@ -113,4 +114,4 @@ def run(prog, rep, tier='quick'):
     from ..prims import USED
     rep.trusted += sorted(USED)
     rep.floor('PSD classes', len(classes), 12)
-    rep.floor('contexts', nctx, 48)
+    rep.floor('contexts', nctx, 96)
